@@ -3,7 +3,7 @@ invariants; fallback-centred family: every fallback kind/condition set over inne
 results, handled/unhandled errors, ExceededError, ErrOpen, ErrFull, rate-limit errors."""
 import vlib, seq
 
-FBS = ["fbR", "fbE", "fbH", "fbX", "fbO", "fbHE", "fbRR", "fbZ", "fbOR"]
+FBS = ["fbR", "fbE", "fbH", "fbH2", "fbX", "fbO", "fbHE", "fbRR", "fbZ", "fbOR"]
 INNER1 = ["rp1", "rp0", "rpH", "rpL", "cbA", "bh2p", "rl2", "cK", "to", "hgR", "fbH"]
 
 
